@@ -41,6 +41,7 @@ func init() {
 			"per shard 40 (400) requests have one upload source whose Read fails with a non-EOF error after 0..33000 bytes (inside, at the end of and after the sniffing window; alone, before, between and after healthy files): such a request must fail (Submit, or the transport's read of the body), or else hold every file in full. " +
 			"in a quarter of the requests that have one the authentication writer is installed as Runtime.DefaultAuthentication instead of ClientOperation.AuthInfo; a third of the writers also read GetMethod, GetPath, GetBodyParam and GetFileParam before and after their GetBody calls (half of those on a pattern /things/{id} with values that need escaping); " +
 			"an eighth of the JSON/XML values have no encoding (the producer refuses them), half of the ReadCloser payloads fail on Close: such a request must fail or else be sent like any other; a request without payload carries no Content-Type. " +
+			"a sixth of the value payloads, and a sweep over every media type with a producer x GetBody 0/1/3 times or no auth writer, are pointers (*struct, *string, *map) and typed-nil pointers (a nil *struct, *string, *map, *[]byte, *[][]string held in the interface): what the producer writes for them into a plain buffer is what must be sent and shown, and what it refuses must make the request fail. " +
 			"non-trivial = every judged request; distinct by (payload kind, media type, value kind, #fields, file name/kind/length/chunking/declared type, GetBody count)",
 		Assumptions: []string{
 			"the expected encoding of a value is what the registered producer writes for it into a plain buffer (differential: the transport must not alter, truncate or re-encode it)",
@@ -351,8 +352,41 @@ func valueFor(kind string, n int) interface{} {
 		return [][]string{{"a", "b"}, {s, "x,y"}, {"q\"uote", "new\nline"}}
 	case "unencodable": // no JSON and no XML encoding exists for it
 		return map[string]interface{}{"k": s, "c": make(chan int)}
+	// pointers, as a hand-written params writer hands its Body field over: pointing at a value, and nil ("typed nil":
+	// the interface is not nil, the pointer in it is). The producer decides what such a value is written as.
+	case "*struct":
+		return &xmlDoc{A: s, N: n}
+	case "*string":
+		return &s
+	case "*map":
+		return &map[string]interface{}{"k": s, "n": n}
+	case "nil-*struct":
+		return (*xmlDoc)(nil)
+	case "nil-*string":
+		return (*string)(nil)
+	case "nil-*map":
+		return (*map[string]interface{})(nil)
+	case "nil-*bytes":
+		return (*[]byte)(nil)
+	case "nil-*records":
+		return (*[][]string)(nil)
 	}
 	return s
+}
+
+// pointerKinds: the pointer-typed payload values, for every media type that has a producer. What each producer
+// writes for them (or that it refuses them) is asked of the producer itself, on a plain buffer.
+var pointerKinds = []string{"*struct", "*string", "*map", "nil-*struct", "nil-*string", "nil-*map", "nil-*bytes", "nil-*records"}
+
+func typedNilKind(kind string) bool { return strings.HasPrefix(kind, "nil-") }
+
+func isPointerKind(kind string) bool {
+	for _, k := range pointerKinds {
+		if k == kind {
+			return true
+		}
+	}
+	return false
 }
 
 var producerKinds = map[string][]string{
@@ -715,17 +749,35 @@ func submitOn(r *client.Runtime, sw *switchTransport, producers map[string]rt.Pr
 		}
 		return &verdict{"failed-upload-sent-as-complete/" + where, fmt.Sprintf("Submit succeeded and the transport read a body of %d bytes to its end without error, although an upload source failed; the document: %s: %s", len(cap.body), v.sig, v.detail)}
 	}
-	if c.Payload == "value" && c.ValueKind == "unencodable" && len(c.Fields) == 0 && len(c.Files) == 0 {
+	if c.Payload == "value" && (c.ValueKind == "unencodable" || isPointerKind(c.ValueKind)) && len(c.Fields) == 0 && len(c.Files) == 0 {
 		// a value for which the media type's producer has no encoding cannot be sent as "the producer's encoding
 		// of the value": the request has to fail
-		if prod := producers[c.MediaType]; prod != nil && prod.Produce(io.Discard, valueFor(c.ValueKind, c.BodyLen)) != nil {
-			if subErr != nil || cap.err != nil {
-				class("unencodable-value/request-fails")
+		tag := "unencodable-value"
+		if c.ValueKind != "unencodable" {
+			tag = "pointer-value/" + c.ValueKind
+		}
+		var refusal error
+		prod := producers[c.MediaType]
+		if prod != nil {
+			if ppv, _ := mon.Catch(func() { refusal = prod.Produce(&bytes.Buffer{}, valueFor(c.ValueKind, c.BodyLen)) }); ppv != nil {
+				// the producer itself panics for the value, on a plain buffer: nothing of the transport's (C15 judges producers)
+				class(tag + "/producer-panics-on-a-plain-buffer(not judged)")
 				return nil
 			}
-			return &verdict{"unencodable-value-sent/" + feat, fmt.Sprintf("Submit succeeded and the transport read a body of %d bytes %.60q under Content-Type %q, although the producer refuses the value ; %s", len(cap.body), cap.body, cap.header.Get("Content-Type"), c.describe())}
 		}
-		class("unencodable-value/producer-accepts-it-after-all")
+		if prod != nil && refusal != nil {
+			if subErr != nil || cap.err != nil {
+				class(tag + "/request-fails")
+				return nil
+			}
+			return &verdict{"unencodable-value-sent/" + feat, fmt.Sprintf("Submit succeeded and the transport read a body of %d bytes %.60q under Content-Type %q, although the producer refuses the value (%v) ; %s", len(cap.body), cap.body, cap.header.Get("Content-Type"), refusal, c.describe())}
+		}
+		if c.ValueKind == "unencodable" {
+			tag += "/producer-accepts-it-after-all"
+		} else {
+			tag += "/producer-accepts-it"
+		}
+		class(tag)
 	}
 	if c.BodyCloseErr && c.Payload == "readcloser" && (subErr != nil || cap.err != nil) {
 		// the payload's own Close failed: the request may be given up; nothing was reported as sent
@@ -1115,6 +1167,9 @@ func sameValuesInOrder(a, b map[string][]string) bool {
 
 func (c *Case) baseFeature() string {
 	f := c.Payload
+	if c.Payload == "value" && typedNilKind(c.ValueKind) {
+		f = "value-typed-nil-pointer"
+	}
 	if len(c.Files) > 0 {
 		f = "files"
 		if len(c.Fields) > 0 {
@@ -1262,6 +1317,16 @@ func genFields(r *rand.Rand) map[string][]string {
 	return out
 }
 
+// A typed-nil pointer body parameter with the media type text/csv made Runtime.Submit panic (CSVProducer called
+// reflect.Indirect(...).Type() on the zero Value; signature panic/value-typed-nil-pointer/text/csv/<auth>): repaired in
+// the library by 44c3a57 (the producer refuses a nil pointer source), witness /tmp/alarms4/C11-csv-producer-typed-nil-source.json.
+// Nothing is kept out of the generator: the switch stays for the next shape that needs triage.
+const triagePendingCSVTypedNil = false
+
+func triagePending(c *Case) bool {
+	return triagePendingCSVTypedNil && c.Payload == "value" && c.MediaType == "text/csv" && typedNilKind(c.ValueKind)
+}
+
 func run(m *mon.M) {
 	r := m.Rand("c11")
 	getBodies := []int{-1, 0, 1, 3}
@@ -1312,6 +1377,10 @@ func run(m *mon.M) {
 				c.Prior = append(c.Prior, *genMix(r, lens))
 			}
 		}
+		if triagePending(c) {
+			m.Class("triage-pending/shape-not-run")
+			continue
+		}
 		m.Begin(c)
 		runCase(m, c)
 	}
@@ -1320,6 +1389,25 @@ func run(m *mon.M) {
 	for _, c := range genFailing(r, m.N(40, 400)) {
 		m.Begin(c)
 		runCase(m, c)
+	}
+	// (4) pointer-typed body parameters, nil ones included, for every media type that has a producer, with and
+	// without an authentication writer that asks for the body
+	k := 0
+	for _, mt := range mixTypes[:7] {
+		for _, kind := range pointerKinds {
+			for _, gb := range getBodies {
+				if k++; k%m.NShards != m.Shard {
+					continue
+				}
+				c := &Case{Method: []string{"POST", "PUT", "PATCH"}[k%3], MediaType: mt, Payload: "value", ValueKind: kind, BodyLen: []int{0, 5, 700}[(k/3)%3], GetBody: gb}
+				if triagePending(c) {
+					m.Class("triage-pending/shape-not-run")
+					continue
+				}
+				m.Begin(c)
+				runCase(m, c)
+			}
+		}
 	}
 }
 
@@ -1384,6 +1472,9 @@ func genMix(r *rand.Rand, lens func() int) *Case {
 			c.BodyLen = lens()
 			if (c.MediaType == "application/json" || c.MediaType == "application/xml") && r.Intn(8) == 0 {
 				c.ValueKind = "unencodable"
+			}
+			if r.Intn(6) == 0 {
+				c.ValueKind = pointerKinds[r.Intn(len(pointerKinds))]
 			}
 		case 3:
 			c.MediaType = mts[r.Intn(7)]
